@@ -538,25 +538,32 @@ def run(ctx):
     cases = [("corpus-" + h, ops) for h, ops in load_corpus()] + gen_cases
     cases_file = os.path.join(ctx.workdir, "cases.txt")
     vf.write_cases(cases_file, cases)
-    ok, bad = vf.lockstep(ctx, binp, drv, cases_file)
+    import time as _t
+    t0 = _t.time()
+    ok, bad, _ = vf.lockstep_sharded(ctx, binp, drv, cases, nshards=16)
     if bad:
         handle_bad(ctx, binp, drv, cases, bad, "release")
     # debug profile: same cases (quick) / a prefix mix (thorough: every 4th random case)
     dcases = cases if ctx.tier != "thorough" else [c for i, c in enumerate(cases) if i < 4000 or i % 4 == 0]
     dfile = os.path.join(ctx.workdir, "cases-dbg.txt")
     vf.write_cases(dfile, dcases)
-    okd, badd = vf.lockstep(ctx, dbgp, drv, dfile, tag="-dbg")
+    okd, badd, _ = vf.lockstep_sharded(ctx, dbgp, drv, dcases, nshards=16, tag="-dbg")
     if badd:
         handle_bad(ctx, dbgp, drv, dcases, badd, "debug")
+    vf.log(f"stage 1 (number types, release + debug): {round(_t.time() - t0)} s")
+    t0 = _t.time()
     pick = [cases[0], cases[len(cases) // 3], cases[len(cases) // 2], cases[-1]]
     ctx.samples = [{"case": h, "ops": ops[:12]} for h, ops in pick]
     ctx.stats["distinct_nontrivial"] = len({tuple(ops) for _, ops in cases if len(ops) >= 3})
     # stage 2: sat_count on real managers with reused caches
     dd_cov, dd_samples = run_dd_stage(ctx)
+    vf.log(f"stage 2 (sat_count on managers): {round(_t.time() - t0)} s")
+    t0 = _t.time()
     ctx.samples = ctx.samples + dd_samples[:3]
     ctx.stats["distinct_nontrivial"] += dd_cov["dd_distinct_nontrivial"]
     # stage 3: kept caches, per-call replay of the cache object
     kept_cov, kept_samples = run_kept_stage(ctx)
+    vf.log(f"stage 3 (kept caches): {round(_t.time() - t0)} s")
     ctx.samples = ctx.samples + kept_samples
     ctx.stats["distinct_nontrivial"] += kept_cov["kept_distinct_nontrivial"]
     dd_cov.update(kept_cov)
